@@ -21,6 +21,7 @@
 #include <sys/types.h>
 #include <fcntl.h>
 #include <unistd.h>
+#include <time.h>
 #include <cstl/vector.h>
 #include <cstl/string.h>
 #include <cstl/array.h>
@@ -57,9 +58,31 @@ static int refused_by_system(void)
 #define SKIP_IF_REFUSED(cond_ok, key, ...) do { if (!(cond_ok)) { \
         if (refused_by_system()) { VRT_COUNT("huge.skipped.allocation-refused-by-system"); vrt_log("huge: the system refused the allocation: skipped\n"); return; } \
         vrt_fail(key, __VA_ARGS__); } } while (0)
+/* At most two scenarios that really touch gigabytes run at any time on the machine, whatever number of checks,
+ * corpus jobs or soaks is running: two lock files, taken for the rest of the worker's case (released when the
+ * case ends).  Waiting costs no CPU time, so the hang detector is not concerned. */
+#include <sys/file.h>
+static int slot_fd = -1;
+static void slot_release(void) { if (slot_fd >= 0) { close(slot_fd); slot_fd = -1; } }
+static void slot_acquire(void)
+{
+    static const char *const names[2] = { "/tmp/verif-huge-slot0.lock", "/tmp/verif-huge-slot1.lock" };
+    int k;
+    if (slot_fd >= 0) return;
+    for (;;) {
+        for (k = 0; k < 2; k++) {
+            int fd = open(names[k], O_CREAT | O_RDWR, 0666);
+            if (fd < 0) continue;
+            if (flock(fd, LOCK_EX | LOCK_NB) == 0) { slot_fd = fd; return; }
+            close(fd);
+        }
+        { struct timespec ts = { 0, 200000000 }; nanosleep(&ts, NULL); }
+    }
+}
 /* 1 when the scenario can run */
 static int have(size_t bytes)
 {
+    if (bytes > G1) slot_acquire();
     if (mem_available() >= bytes + 6 * G1) return 1;
     VRT_COUNT("huge.skipped.not-enough-memory");
     vrt_log("huge: scenario needs %zu MiB, only %zu MiB available: skipped\n", bytes >> 20, mem_available() >> 20);
@@ -634,14 +657,18 @@ static void run_case(uint64_t idx)
     case 4: arr_views(c->a, c->b, c->flag); break;
     default: search_huge(c->a, c->flag); break;
     }
+    slot_release();
     VRT_COUNT("huge.scenarios");
     vrt_sig(0, vrt_mix(vrt_mix(vrt_mix(0x4096, (uint64_t)c->kind), c->a), vrt_mix(c->b, (uint64_t)c->flag)));
 }
+/* a failed scenario is abandoned: give its gigabytes back and let the next scenario of another process in */
+static void on_fail(void) { vrt_lib_release_big((size_t)1 << 26); slot_release(); }
 static void winit(void)
 {
     mode = strcmp(vrt_mode, "string") == 0 ? M_STRING : strcmp(vrt_mode, "array") == 0 ? M_ARRAY : strcmp(vrt_mode, "search") == 0 ? M_SEARCH : M_VECTOR;
     build();
     vrt_sig_name(0, "huge-scenarios");
+    vrt_fail_hook = on_fail;
 }
 static const char *const required[] = { "huge.scenarios", NULL };
 static struct vrt_harness H = { "huge", ncases, run_case, winit, NULL, required, 3 };
